@@ -360,7 +360,11 @@ class _Run:
             if kind == "q":
                 obj = (pint.Quantity if node == "app" else ureg.Quantity)(make_mag(s["x"]), s["u"])
                 if s.get("pow") and s["x"]["t"] in ("int", "float") and float(s["x"]["v"]) > 0:
-                    obj = obj ** Fraction(s["pow"])
+                    # the exponent in the registry's own numeric type (a Fraction exponent inside a float
+                    # registry is not something the registry itself would produce)
+                    T = {"float": float, "Fraction": Fraction, "Decimal": Decimal}[self.case.get("knobs", {}).get("numtype", "float")]
+                    e = Fraction(s["pow"])
+                    obj = obj ** (e if T is Fraction else (float(e) if T is float else Decimal(e.numerator) / Decimal(e.denominator)))
             elif kind == "u":
                 obj = (pint.Unit if node == "app" else ureg.Unit)(s["u"])
             elif kind == "m":
